@@ -71,6 +71,9 @@ pub struct TcpEg {
     mon: [Monitor; 2],
     agg: Agg,
     flushed: bool,
+    /// verdicts on the frames emitted while reaching the initial state, handed out with the
+    /// first event
+    init: Vec<Viol>,
 }
 
 impl TcpEg {
@@ -111,7 +114,7 @@ impl Harness for TcpEg {
     fn new(cfg: &Tcp2Cfg) -> TcpEg {
         let mut inner = Tcp2::new(cfg);
         inner.keep_emitted = true;
-        let mut t = TcpEg { inner, mon: [Monitor::new(), Monitor::new()], agg: Agg::default(), flushed: false };
+        let mut t = TcpEg { inner, mon: [Monitor::new(), Monitor::new()], agg: Agg::default(), flushed: false, init: vec![] };
         // frames emitted while reaching the initial state (SYN / ARP request / NS / RS / MLD)
         // are still in flight: net[d] holds what endpoint 1-d sent
         let owns = t.owns();
@@ -126,7 +129,7 @@ impl Harness for TcpEg {
         for (_, side, bytes) in first {
             t.check(side, &bytes, owns[side].clone(), &mut sink);
         }
-        t.inner.pending.extend(sink);
+        t.init = sink;
         t
     }
     fn enabled(&self) -> Vec<(TEv, u32)> {
@@ -136,8 +139,10 @@ impl Harness for TcpEg {
         let before = self.owns();
         let mut inner_out = vec![];
         self.inner.apply(ev, &mut inner_out);
-        // violations of other properties are not this check's business
-        out.extend(inner_out.into_iter().filter(|v| v.sig.starts_with("MACHINERY") || v.sig.starts_with("panic/") || v.sig.starts_with("C10/")));
+        // the oracles built into tcp2 (stream integrity, progress, sender monitor) belong to other
+        // checks; only machinery problems and panics pass
+        out.extend(inner_out.into_iter().filter(|v| v.sig.starts_with("MACHINERY") || v.sig.starts_with("panic/")));
+        out.append(&mut self.init);
         let after = self.owns();
         let emitted = std::mem::take(&mut self.inner.emitted);
         for (side, f) in emitted {
